@@ -517,4 +517,359 @@ theorem Grows.view {h h' : Heap} (gr : Grows h h') (g i : Nat) (k : Nat) (l : Li
     rw [← hv.2]; exact gr.1 e.2
 
 
+
+/-! ### refinement: what the object-level operators compute, seen through `view` -/
+
+/-- every address of the dictionary is allocated -/
+def ValidDict (h : Heap) (d : Dict) : Prop := ∀ e ∈ d, e.2 < h.lists.length
+
+def viewOf (h : Heap) (d : Dict) : List (Nat × List Int) := d.map fun e => (e.1, h.listAt e.2)
+
+theorem view_eq_viewOf (h : Heap) (g : Nat) : h.view g = viewOf h (h.genoAt g) := rfl
+
+theorem listAt_alloc_old (h : Heap) (v : List Int) {a : Nat} (ha : a < h.lists.length) :
+    (h.allocList v).1.listAt a = h.listAt a := by
+  simp [Heap.allocList, Heap.listAt, List.getElem?_append_left ha]
+
+theorem listAt_alloc_new (h : Heap) (v : List Int) : (h.allocList v).1.listAt h.lists.length = v := by
+  simp [Heap.allocList, Heap.listAt]
+
+theorem viewOf_congr {h h' : Heap} {d : Dict} (hv : ValidDict h d) (hf : ∀ a, a < h.lists.length → h'.listAt a = h.listAt a) :
+    viewOf h' d = viewOf h d := by
+  unfold viewOf
+  apply List.map_congr_left
+  intro e he
+  rw [hf _ (hv e he)]
+
+/-- copying keeps every old cell and gives the copy the contents of the original -/
+theorem copyDict_spec (h : Heap) (d : Dict) (hv : ValidDict h d) :
+    (∀ a, a < h.lists.length → (copyDict h d).1.listAt a = h.listAt a) ∧
+    h.lists.length ≤ (copyDict h d).1.lists.length ∧
+    viewOf (copyDict h d).1 (copyDict h d).2 = viewOf h d := by
+  induction d generalizing h with
+  | nil => simp [copyDict, viewOf]
+  | cons e rest ih =>
+    obtain ⟨k, a⟩ := e
+    have ha : a < h.lists.length := hv (k, a) List.mem_cons_self
+    have hv1 : ValidDict (h.allocList (h.listAt a)).1 rest := by
+      intro e he
+      have := hv e (List.mem_cons_of_mem _ he)
+      simp [Heap.allocList]; omega
+    obtain ⟨f1, l1, v1⟩ := ih (h.allocList (h.listAt a)).1 hv1
+    simp only [copyDict]
+    refine ⟨fun x hx => ?_, ?_, ?_⟩
+    · rw [f1 x (by simp [Heap.allocList]; omega), listAt_alloc_old h _ hx]
+    · have : h.lists.length ≤ (h.allocList (h.listAt a)).1.lists.length := by simp [Heap.allocList]
+      omega
+    · simp only [viewOf, List.map_cons]
+      congr 1
+      · have := f1 h.lists.length (by simp [Heap.allocList])
+        simp only [Heap.allocList] at this ⊢
+        rw [this]
+        simp [Heap.listAt]
+      · have e1 : viewOf (copyDict (h.allocList (h.listAt a)).1 rest).1 (copyDict (h.allocList (h.listAt a)).1 rest).2 =
+            viewOf (h.allocList (h.listAt a)).1 rest := v1
+        have e2 : viewOf (h.allocList (h.listAt a)).1 rest = viewOf h rest :=
+          viewOf_congr (fun e he => hv e (List.mem_cons_of_mem _ he)) (fun x hx => listAt_alloc_old h _ hx)
+        exact e1.trans e2
+
+
+theorem listAt_setItem (h : Heap) (a i : Nat) (v : Int) (a' : Nat) :
+    (h.setItem a i v).listAt a' = if a' = a ∧ a < h.lists.length then (h.listAt a).set i v else h.listAt a' := by
+  simp only [Heap.setItem, Heap.listAt, List.getElem?_set]
+  by_cases h1 : a = a'
+  · subst h1
+    by_cases h2 : a < h.lists.length <;> simp [h2]
+  · have : ¬ a' = a := fun e => h1 e.symm
+    simp [h1, this]
+
+theorem nodup_addrs_index {d : Dict} (nd : (addrs d).Nodup) {i j : Nat} {e1 e2 : Nat × Nat}
+    (h1 : d[i]? = some e1) (h2 : d[j]? = some e2) (he : e1.2 = e2.2) : i = j := by
+  have hi := (List.getElem?_eq_some_iff.1 h1)
+  have hj := (List.getElem?_eq_some_iff.1 h2)
+  obtain ⟨hil, hie⟩ := hi
+  obtain ⟨hjl, hje⟩ := hj
+  have a1 : (addrs d)[i]'(by simpa [addrs] using hil) = e1.2 := by simp [addrs, hie]
+  have a2 : (addrs d)[j]'(by simpa [addrs] using hjl) = e2.2 := by simp [addrs, hje]
+  exact (List.getElem_inj nd).1 (by rw [a1, a2, he])
+
+theorem viewOf_setItem (h : Heap) (d : Dict) (nd : (addrs d).Nodup) (hv : ValidDict h d) (k r : Nat) (v : Int) (e : Nat × Nat)
+    (hk : d[k]? = some e) :
+    viewOf (h.setItem e.2 r v) d = (viewOf h d).modify k (fun x => (x.1, x.2.set r v)) := by
+  apply List.ext_getElem?
+  intro i
+  rw [List.getElem?_modify]
+  simp only [viewOf, List.getElem?_map]
+  cases hi : d[i]? with
+  | none => simp
+  | some x =>
+    simp only [Option.map_some]
+    rw [listAt_setItem]
+    have hval : e.2 < h.lists.length := hv e (List.mem_of_getElem? hk)
+    by_cases hik : k = i
+    · subst hik
+      rw [hk] at hi
+      cases hi
+      simp [hval]
+    · have : x.2 ≠ e.2 := fun hx => hik (nodup_addrs_index nd hk hi hx.symm)
+      simp [hik, this]
+
+
+theorem view_allocGeno_new (h : Heap) (d : Dict) : (h.allocGeno d).view h.genos.length = viewOf h d := by
+  simp [Heap.view, Heap.allocGeno, Heap.genoAt, viewOf, Heap.listAt]
+
+theorem view_allocGeno_old (h : Heap) (d : Dict) {g : Nat} (hg : g < h.genos.length) : (h.allocGeno d).view g = h.view g := by
+  simp [Heap.view, Heap.allocGeno, Heap.genoAt, Heap.listAt, List.getElem?_append_left hg]
+
+theorem copyDict_genos (h : Heap) (d : Dict) : (copyDict h d).1.genos = h.genos := by
+  obtain ⟨_, _, h2, _, _⟩ := copyDict_built h d
+  exact h2
+
+theorem copyDict_valid (h : Heap) (d : Dict) : ValidDict (copyDict h d).1 (copyDict h d).2 ∧ (addrs (copyDict h d).2).Nodup := by
+  obtain ⟨ls, h1, _, nd, rg⟩ := copyDict_built h d
+  simp only [List.flatMap_cons, List.flatMap_nil, List.append_nil] at nd rg
+  refine ⟨fun e he => ?_, nd⟩
+  have := (rg e.2 (List.mem_map.2 ⟨e, he, rfl⟩)).2
+  rw [h1]; simp; omega
+
+theorem modify_of_getElem?_none {α : Type} (l : List α) (k : Nat) (f : α → α) (hk : l[k]? = none) : l.modify k f = l := by
+  apply List.ext_getElem?
+  intro i
+  rw [List.getElem?_modify]
+  by_cases hik : k = i
+  · subst hik; simp [hk]
+  · simp [hik]
+
+/-- SGE / dynamic-SGE `mutate` at the object level computes the genes of the value-level operator: the new genotype object reads
+like its parent with gene `r` of list number `k` replaced (or exactly like its parent when no gene was chosen) -/
+theorem structMutate_view (h : Heap) (g : Nat) (hv : ValidDict h (h.genoAt g)) (choice : Option (Nat × Nat × Int)) :
+    (structMutate h g choice).view h.genos.length =
+      match choice with
+      | none => h.view g
+      | some (k, r, v) => (h.view g).modify k (fun x => (x.1, x.2.set r v)) := by
+  obtain ⟨_, _, vw⟩ := copyDict_spec h (h.genoAt g) hv
+  obtain ⟨cv, cn⟩ := copyDict_valid h (h.genoAt g)
+  have hg := copyDict_genos h (h.genoAt g)
+  unfold structMutate
+  cases choice with
+  | none =>
+    simp only
+    rw [← hg, view_allocGeno_new, vw]; rfl
+  | some c =>
+    obtain ⟨k, r, v⟩ := c
+    simp only
+    cases hd : (copyDict h (h.genoAt g)).2[k]? with
+    | none =>
+      simp only
+      rw [← hg, view_allocGeno_new, vw]
+      have : (viewOf h (h.genoAt g))[k]? = none := by
+        rw [← vw]; simp [viewOf, hd]
+      rw [view_eq_viewOf, modify_of_getElem?_none _ _ _ this]
+    | some e =>
+      simp only
+      have hg2 : ((copyDict h (h.genoAt g)).1.setItem e.2 r v).genos = h.genos := by simp [Heap.setItem, hg]
+      rw [← hg2, view_allocGeno_new, viewOf_setItem _ _ cn cv k r v e hd, vw]; rfl
+
+
+/-- the genes genotype dictionary `d` holds for key `k` (`dna.get(k, [])`) -/
+def rd (h : Heap) (d : Dict) (k : Nat) : List Int := ((dictGet d k).map h.listAt).getD []
+
+theorem rd_frame {h0 h : Heap} {d : Dict} (hv : ValidDict h0 d) (hf : ∀ a, a < h0.lists.length → h.listAt a = h0.listAt a) (k : Nat) :
+    rd h d k = rd h0 d k := by
+  unfold rd
+  cases hk : dictGet d k with
+  | none => rfl
+  | some a =>
+    simp only [Option.map_some, Option.getD_some]
+    exact hf a (hv (k, a) (dictGet_mem hk))
+
+theorem crossKeys_spec (h0 : Heap) (d1 d2 : Dict) (hv1 : ValidDict h0 d1) (hv2 : ValidDict h0 d2) (km : List (Nat × Bool)) :
+    ∀ (h : Heap), (∀ a, a < h0.lists.length → h.listAt a = h0.listAt a) → h0.lists.length ≤ h.lists.length →
+    (∀ a, a < h.lists.length → (crossKeys h d1 d2 km).1.listAt a = h.listAt a) ∧ h.lists.length ≤ (crossKeys h d1 d2 km).1.lists.length ∧
+    viewOf (crossKeys h d1 d2 km).1 (crossKeys h d1 d2 km).2.1 = km.map (fun e => (e.1, if e.2 then rd h0 d1 e.1 else rd h0 d2 e.1)) ∧
+    viewOf (crossKeys h d1 d2 km).1 (crossKeys h d1 d2 km).2.2 = km.map (fun e => (e.1, if e.2 then rd h0 d2 e.1 else rd h0 d1 e.1)) := by
+  induction km with
+  | nil => intro h _ _; simp [crossKeys, viewOf]
+  | cons e rest ih =>
+    intro h hf hle
+    obtain ⟨k, b⟩ := e
+    have r1 : rd h d1 k = rd h0 d1 k := rd_frame hv1 hf k
+    have r2 : rd h d2 k = rd h0 d2 k := rd_frame hv2 hf k
+    simp only [crossKeys, crossKey]
+    -- the heap after the two allocations of this key
+    generalize hl1 : (if b = true then (Option.map h.listAt (dictGet d1 k)).getD [] else (Option.map h.listAt (dictGet d2 k)).getD []) = v1
+    generalize hl2 : (if b = true then (Option.map h.listAt (dictGet d2 k)).getD [] else (Option.map h.listAt (dictGet d1 k)).getD []) = v2
+    have e1 : v1 = if b then rd h0 d1 k else rd h0 d2 k := by rw [← hl1, ← r1, ← r2]; rfl
+    have e2 : v2 = if b then rd h0 d2 k else rd h0 d1 k := by rw [← hl2, ← r1, ← r2]; rfl
+    have fB : ∀ a, a < h.lists.length → ((h.allocList v1).1.allocList v2).1.listAt a = h.listAt a := by
+      intro a ha
+      have : a < (h.allocList v1).1.lists.length := by simp [Heap.allocList]; omega
+      rw [listAt_alloc_old (h.allocList v1).1 v2 this, listAt_alloc_old h v1 ha]
+    have lenB : ((h.allocList v1).1.allocList v2).1.lists.length = h.lists.length + 2 := by simp [Heap.allocList]
+    obtain ⟨f, l, w1, w2⟩ := ih ((h.allocList v1).1.allocList v2).1 (fun a ha => by rw [fB a (by omega), hf a ha]) (by omega)
+    have a1v : ((h.allocList v1).1.allocList v2).1.listAt h.lists.length = v1 := by
+      have : h.lists.length < (h.allocList v1).1.lists.length := by simp [Heap.allocList]
+      rw [listAt_alloc_old (h.allocList v1).1 v2 this]; exact listAt_alloc_new h v1
+    have a2v : ((h.allocList v1).1.allocList v2).1.listAt (h.lists.length + 1) = v2 := by
+      have : (h.allocList v1).1.lists.length = h.lists.length + 1 := by simp [Heap.allocList]
+      rw [← this]; exact listAt_alloc_new (h.allocList v1).1 v2
+    have s1 : (h.allocList v1).2 = h.lists.length := rfl
+    have s2 : ((h.allocList v1).1.allocList v2).2 = h.lists.length + 1 := by simp [Heap.allocList]
+    refine ⟨fun a ha => ?_, by omega, ?_, ?_⟩
+    · rw [f a (by omega), fB a ha]
+    · simp only [viewOf, List.map_cons]
+      rw [s1, f _ (by omega), a1v]
+      refine congr (congrArg List.cons ?_) w1
+      rw [e1]
+    · simp only [viewOf, List.map_cons]
+      rw [s2, f _ (by omega), a2v]
+      refine congr (congrArg List.cons ?_) w2
+      rw [e2]
+
+theorem crossKeys_genos (h : Heap) (d1 d2 : Dict) (km : List (Nat × Bool)) : (crossKeys h d1 d2 km).1.genos = h.genos := by
+  obtain ⟨_, _, h2, _, _⟩ := crossKeys_built h d1 d2 km
+  exact h2
+
+/-- SGE / dynamic-SGE `crossover` at the object level computes the genes of the value-level operator: over the keys of parent 1, one
+mask bit per key, child 1 reads parent 1's genes where the bit is set and parent 2's (`[]` for a key parent 2 lacks) where it is not;
+child 2 the other way round -/
+theorem structCrossover_view (h : Heap) (g1 g2 : Nat) (hv1 : ValidDict h (h.genoAt g1)) (hv2 : ValidDict h (h.genoAt g2)) (mask : List Bool) :
+    let km := ((h.genoAt g1).map (·.1)).zip mask
+    (structCrossover h g1 g2 mask).view h.genos.length = km.map (fun e => (e.1, if e.2 then rd h (h.genoAt g1) e.1 else rd h (h.genoAt g2) e.1)) ∧
+    (structCrossover h g1 g2 mask).view (h.genos.length + 1) = km.map (fun e => (e.1, if e.2 then rd h (h.genoAt g2) e.1 else rd h (h.genoAt g1) e.1)) := by
+  intro km
+  obtain ⟨_, _, w1, w2⟩ := crossKeys_spec h (h.genoAt g1) (h.genoAt g2) hv1 hv2 km h (fun _ _ => rfl) (Nat.le_refl _)
+  have hg := crossKeys_genos h (h.genoAt g1) (h.genoAt g2) km
+  unfold structCrossover
+  simp only
+  have n1 : ((crossKeys h (h.genoAt g1) (h.genoAt g2) km).1.allocGeno (crossKeys h (h.genoAt g1) (h.genoAt g2) km).2.1).genos.length = h.genos.length + 1 := by
+    simp [Heap.allocGeno, hg]
+  constructor
+  · rw [view_allocGeno_old _ _ (by rw [n1]; omega), ← hg, view_allocGeno_new, w1]
+  · rw [← n1, view_allocGeno_new]
+    have : viewOf ((crossKeys h (h.genoAt g1) (h.genoAt g2) km).1.allocGeno (crossKeys h (h.genoAt g1) (h.genoAt g2) km).2.1)
+        (crossKeys h (h.genoAt g1) (h.genoAt g2) km).2.2 = viewOf (crossKeys h (h.genoAt g1) (h.genoAt g2) km).1 (crossKeys h (h.genoAt g1) (h.genoAt g2) km).2.2 := rfl
+    rw [this, w2]
+
+
+/-! the dynamic-SGE mapping, seen through the view -/
+
+/-- value level: genes appended to the first entry with that key; a key that is not there yet is added at the end -/
+def viewExtend : List (Nat × List Int) → Nat × List Int → List (Nat × List Int)
+  | [], e => [e]
+  | x :: xs, e => if x.1 == e.1 then (x.1, x.2 ++ e.2) :: xs else x :: viewExtend xs e
+
+theorem dictGet_cons (x : Nat × Nat) (xs : Dict) (k : Nat) :
+    dictGet (x :: xs) k = if x.1 == k then some x.2 else dictGet xs k := by
+  unfold dictGet
+  rw [List.find?_cons]
+  by_cases hx : (x.1 == k) = true <;> simp [hx]
+
+theorem viewOf_extendList_found (h : Heap) (vs : List Int) : ∀ (d : Dict) (k a : Nat), dictGet d k = some a → (addrs d).Nodup →
+    a < h.lists.length → viewOf (h.extendList a vs) d = viewExtend (viewOf h d) (k, vs) := by
+  intro d
+  induction d with
+  | nil => intro k a hk; simp [dictGet] at hk
+  | cons x xs ih =>
+    intro k a hk nd ha
+    rw [dictGet_cons] at hk
+    simp only [addrs, List.map_cons, List.nodup_cons] at nd
+    by_cases hx : (x.1 == k) = true
+    · simp only [hx, if_true, Option.some.injEq] at hk
+      subst hk
+      simp only [viewOf, List.map_cons, viewExtend, hx, if_true]
+      congr 1
+      · rw [listAt_extendList]; simp [ha]
+      · apply List.map_congr_left
+        intro e he
+        rw [listAt_extendList]
+        have : e.2 ≠ x.2 := fun hh => nd.1 (hh ▸ List.mem_map.2 ⟨e, he, rfl⟩)
+        simp [this]
+    · simp only [hx] at hk
+      have hk' : dictGet xs k = some a := by simpa using hk
+      have hne : x.2 ≠ a := fun hh => nd.1 (hh ▸ List.mem_map.2 ⟨(k, a), dictGet_mem hk', rfl⟩)
+      have := ih k a hk' nd.2 ha
+      simp only [viewOf, List.map_cons, viewExtend, hx] at this ⊢
+      rw [listAt_extendList]
+      simp only [hne, false_and, if_false]
+      simpa using this
+
+theorem viewExtend_not_found : ∀ (v : List (Nat × List Int)) (e : Nat × List Int), (∀ x ∈ v, (x.1 == e.1) = false) →
+    viewExtend v e = v ++ [e] := by
+  intro v
+  induction v with
+  | nil => intro e _; rfl
+  | cons x xs ih =>
+    intro e hn
+    have hx := hn x List.mem_cons_self
+    simp only [viewExtend, hx]
+    rw [ih e (fun y hy => hn y (List.mem_cons_of_mem _ hy))]
+    simp
+
+theorem dictGet_none_keys {d : Dict} {k : Nat} (hk : dictGet d k = none) : ∀ x ∈ d, (x.1 == k) = false := by
+  unfold dictGet at hk
+  simp only [Option.map_eq_none_iff, List.find?_eq_none] at hk
+  intro x hx
+  simpa using hk x hx
+
+theorem nodup_of_flatMap {α β : Type} (f : α → List β) : ∀ (l : List α), (l.flatMap f).Nodup → ∀ x ∈ l, (f x).Nodup := by
+  intro l
+  induction l with
+  | nil => intro _ x hx; cases hx
+  | cons y ys ih =>
+    intro nd x hx
+    rw [List.flatMap_cons, List.nodup_append] at nd
+    rcases List.mem_cons.1 hx with rfl | hx
+    · exact nd.1
+    · exact ih nd.2.1 x hx
+
+theorem Sep.nodup_genoAt {h : Heap} (s : Sep h) (g : Nat) : (addrs (h.genoAt g)).Nodup := by
+  unfold Heap.genoAt
+  cases hg : h.genos[g]? with
+  | none => simp [addrs]
+  | some d => simpa using nodup_of_flatMap addrs h.genos s.1 d (List.mem_of_getElem? hg)
+
+theorem Sep.valid_genoAt {h : Heap} (s : Sep h) (g : Nat) : ValidDict h (h.genoAt g) :=
+  fun e he => s.2 _ (mem_allAddrs_of_genoAt (List.mem_map.2 ⟨e, he, rfl⟩))
+
+theorem mapKey_view {h : Heap} (s : Sep h) {g : Nat} (hg : g < h.genos.length) (e : Nat × List Int) :
+    (mapKey h g e).view g = viewExtend (h.view g) e := by
+  unfold mapKey
+  split
+  · rename_i a ha
+    have hval : a < h.lists.length := s.valid_genoAt g (e.1, a) (dictGet_mem ha)
+    have : (h.extendList a e.2).genoAt g = h.genoAt g := by simp [Heap.extendList, Heap.genoAt]
+    rw [view_eq_viewOf, this, viewOf_extendList_found h e.2 (h.genoAt g) e.1 a ha (s.nodup_genoAt g) hval]
+    rfl
+  · rename_i hn
+    rw [view_eq_viewOf, genoAt_insertKey]
+    have hlen : g < (h.allocList e.2).1.genos.length := by simpa [Heap.allocList] using hg
+    have hgen : (h.allocList e.2).1.genoAt g = h.genoAt g := by simp [Heap.allocList, Heap.genoAt]
+    simp only [hlen, and_self, if_true, hgen]
+    have hnone : dictGet (h.genoAt g) e.1 = none := hn
+    rw [view_eq_viewOf, viewExtend_not_found (viewOf h (h.genoAt g)) e]
+    · simp only [viewOf, List.map_append, List.map_cons, List.map_nil]
+      congr 1
+      · apply List.map_congr_left
+        intro x hx
+        have hv : x.2 < h.lists.length := s.valid_genoAt g x hx
+        simp [Heap.insertKey, Heap.allocList, Heap.listAt, List.getElem?_append_left hv]
+      · simp [Heap.insertKey, Heap.allocList, Heap.listAt]
+    · intro x hx
+      obtain ⟨y, hy, rfl⟩ := List.mem_map.1 hx
+      exact dictGet_none_keys hnone y hy
+
+/-- dynamic-SGE mapping at the object level computes the value-level extension: the genotype that is mapped reads like before with the
+appended genes added to the lists of their keys and new keys added at the end, in the order the mapping met them -/
+theorem dsgeMap_view {h : Heap} (s : Sep h) {g : Nat} (hg : g < h.genos.length) (ext : List (Nat × List Int)) :
+    (dsgeMap h g ext).view g = ext.foldl viewExtend (h.view g) := by
+  unfold dsgeMap
+  rw [if_pos hg]
+  induction ext generalizing h with
+  | nil => rfl
+  | cons e rest ih =>
+    simp only [List.foldl_cons]
+    rw [ih (mapKey_sep s hg e) (by rw [mapKey_genos_length]; exact hg), mapKey_view s hg]
+
+
 end GEVerif.Heap
